@@ -1,7 +1,7 @@
 (* Executable comparison of the store / lookup model with observations of storage/memory (written by h_store).
    A case is one history: a universe of triples (position = rank), pools of query arguments, and for every step the
    operation together with everything observed on the real store after it.  Lookup results are compared through a
-   digest (polynomial hash modulo 2^61-1 over a canonical encoding) computed on both sides, so that hundreds of
+   digest (polynomial hash modulo 2^64 over a canonical encoding) computed on both sides, so that hundreds of
    lookups per state cost one number of case text; the detail functions below list per-lookup digests for the
    failing-input search. *)
 From Coq Require Import List NArith ZArith Bool.
@@ -10,9 +10,9 @@ From BWStore Require Import AMap Store Lookup LookupSpec.
 Open Scope N_scope.
 
 (* ---------------------------------------------------------------- digest *)
-Definition dM : N := 2305843009213693951.
+Definition dMask : N := 18446744073709551615.     (* 2^64 - 1: the arithmetic of Go's uint64 *)
 Definition dP : N := 1000003.
-Definition dmix (h x : N) : N := (h * dP + x + 1) mod dM.
+Definition dmix (h x : N) : N := N.land (dP * h + x + 1) dMask.
 Definition dlist (h : N) (l : list N) : N := fold_left dmix l h.
 
 Definition zenc (z : Z) : N := match z with Z0 => 0 | Zpos p => 2 * Npos p | Zneg p => 2 * Npos p + 1 end.
